@@ -140,3 +140,212 @@ Theorem C03_bmc_witness_shortest :
       exists j, k = N.of_nat j /\ (j <= k_max)%nat /\ reach_at sy j /\ forall m, (m < j)%nat -> ~ reach_at sy m.
 Proof. exact bmc_witness_shortest. Qed.
 Print Assumptions C03_bmc_witness_shortest.
+
+(** ** the whole of [bmc] (Model/BmcWitFull.v): every parameter, every exit
+
+    [bmc_model_full sv sy nm check_constraints individually k_max] models bmc.rs with
+    [check_constraints] (the extra (check-sat) after the constraints of each step: "unknown" gives the
+    verdict Unknown, "unsat" trips the [assert_eq!], an error is returned), both checking modes with the
+    calls in the order of the code, solver answers [SSat m | SUnsat | SUnknown | SErr e], failing
+    commands ([sv_fault]: set-logic, header, init_at, each assert, check_assuming_end, unroll), a
+    (get-value) that may fail at every single symbol ([sv_value]), and [assert!(k_max <= 2000)]; results
+    [FSuccess | FUnknown | FFail k w | FErr e | FPanic].
+
+    Hypothesis on the solver: a "sat" answer comes with a model of the query, and a (get-value) answer is
+    the value of the symbol under that model (extended by the definitions).  NOTHING is assumed about
+    "unsat", "unknown", errors or failing commands.  Then, for every system in the domain of
+    [C04_script3_wf] with pairwise distinct inputs, every bound, [check_constraints] on or off, both
+    checking modes: a returned witness is accepted by [check_witness] and has [k + 1] steps ... *)
+From Patronus Require Import BmcWitFull BmcWitFullProofs.
+Theorem C03_bmc_full_witness_accepted :
+  forall (EM : Type) (sv : solver EM),
+    ((forall sc asserts assumps m, sv_check sv sc asserts assumps = SSat m -> is_model sc asserts assumps m) /\
+     (forall sc m s x, sv_value sv sc m s = GVal x -> x = val_of (script_eval m sc) s)) ->
+    forall (sy : sys) (nm : expr -> string) (k_max : nat) (check_constraints individually : bool) (k : N) (w : witness),
+      sys_wf sy = true -> nodup_exprs (s_inputs sy) = true ->
+      names_ok (enc_new sy nm) = true -> init_deps_acyclic sy ->
+      bmc_model_full EM sv sy nm check_constraints individually k_max = FFail k w ->
+      check_witness sy w = true /\
+      exists j, k = N.of_nat j /\ (j <= k_max)%nat /\ length (w_inputs w) = S j.
+Proof. exact bmc_full_witness_ok. Qed.
+Print Assumptions C03_bmc_full_witness_accepted.
+
+(** ... it is an execution from an initial valuation that satisfies every constraint at every step and
+    ends, after exactly [k <= k_max] steps, in exactly the reported bad states (at least one) ... *)
+Theorem C03_bmc_full_witness_is_execution :
+  forall (EM : Type) (sv : solver EM),
+    ((forall sc asserts assumps m, sv_check sv sc asserts assumps = SSat m -> is_model sc asserts assumps m) /\
+     (forall sc m s x, sv_value sv sc m s = GVal x -> x = val_of (script_eval m sc) s)) ->
+    forall (sy : sys) (nm : expr -> string) (k_max : nat) (check_constraints individually : bool) (k : N) (w : witness),
+      sys_wf sy = true -> nodup_exprs (s_inputs sy) = true ->
+      names_ok (enc_new sy nm) = true -> init_deps_acyclic sy ->
+      bmc_model_full EM sv sy nm check_constraints individually k_max = FFail k w ->
+      witness_ok sy w /\
+      exists frees : list env,
+        is_initial_r sy (witness_env0 sy w) /\
+        N.of_nat (length frees) = k /\ (length frees <= k_max)%nat /\
+        forallb (constraints_hold sy) (run_from sy (witness_env0 sy w) frees) = true /\
+        some_bad sy (last (run_from sy (witness_env0 sy w) frees) env0) = true /\
+        bads_exactly sy (last (run_from sy (witness_env0 sy w) frees) env0) (w_failed w) = true.
+Proof. exact bmc_full_witness_is_execution. Qed.
+Print Assumptions C03_bmc_full_witness_is_execution.
+
+(** ... and of the LEAST depth at which a bad state is reachable, as soon as the solver's "unsat" answers
+    are right as well (it may still answer unknown or fail: the result is then not a Fail). *)
+Theorem C03_bmc_full_witness_shortest :
+  forall (EM : Type) (sv : solver EM),
+    ((forall sc asserts assumps m, sv_check sv sc asserts assumps = SSat m -> is_model sc asserts assumps m) /\
+     (forall sc m s x, sv_value sv sc m s = GVal x -> x = val_of (script_eval m sc) s)) ->
+    (forall sc asserts assumps, sv_check sv sc asserts assumps = SUnsat -> ~ exists m, is_model sc asserts assumps m) ->
+    forall (sy : sys) (nm : expr -> string) (k_max : nat) (check_constraints individually : bool) (k : N) (w : witness),
+      sys_wf sy = true -> nodup_exprs (s_inputs sy) = true ->
+      names_ok (enc_new sy nm) = true -> init_deps_acyclic sy ->
+      bmc_model_full EM sv sy nm check_constraints individually k_max = FFail k w ->
+      exists j, k = N.of_nat j /\ (j <= k_max)%nat /\ reach_at sy j /\ forall m, (m < j)%nat -> ~ reach_at sy m.
+Proof. exact bmc_full_witness_shortest. Qed.
+Print Assumptions C03_bmc_full_witness_shortest.
+
+(** The model of the previous section is the instance "[check_constraints = false], solver without unknown,
+    errors and faults" of the full model ([lift_solver]: "sat + model" / "unsat", get-value reports the
+    model's values), whenever it does not panic and [k_max <= 2000]: nothing was lost by the generalisation. *)
+Theorem C03_bmc_full_extends_bmc_model :
+  forall (EM : Type) (solver_model : list cmd -> list expr -> list expr -> option env)
+         (sy : sys) (nm : expr -> string) (individually : bool) (k_max : nat),
+    (k_max <= 2000)%nat ->
+    bmc_model_w solver_model sy nm individually k_max <> WPanic ->
+    bmc_model_full EM (lift_solver EM solver_model) sy nm false individually k_max =
+    lift_result EM (bmc_model_w solver_model sy nm individually k_max).
+Proof. exact bmc_full_is_bmc_w. Qed.
+Print Assumptions C03_bmc_full_extends_bmc_model.
+
+(** The last sentence of the property: the witness names and orders states and inputs as the system does
+    and provides a value for every input at every step.  [has_value s ov]: [ov = Some x] with [x] a value
+    of the type of [s] (a bit-vector in range, or an array with one in-range entry per index: array
+    states are listed like the others).  One init value per state, in the order of the states; [k + 1]
+    input steps, each with one value per input, in the order of the inputs; the failed indices are
+    indices of bad states. *)
+Theorem C03_witness_shape :
+  forall (EM : Type) (sv : solver EM),
+    ((forall sc asserts assumps m, sv_check sv sc asserts assumps = SSat m -> is_model sc asserts assumps m) /\
+     (forall sc m s x, sv_value sv sc m s = GVal x -> x = val_of (script_eval m sc) s)) ->
+    forall (sy : sys) (nm : expr -> string) (k_max : nat) (check_constraints individually : bool) (k : N) (w : witness),
+      sys_wf sy = true -> nodup_exprs (s_inputs sy) = true ->
+      names_ok (enc_new sy nm) = true -> init_deps_acyclic sy ->
+      bmc_model_full EM sv sy nm check_constraints individually k_max = FFail k w ->
+      w_init_names w = map (fun s => Some (sym_name_of s)) (state_syms sy) /\
+      w_input_names w = map (fun s => Some (sym_name_of s)) (s_inputs sy) /\
+      Forall2 has_value (state_syms sy) (w_init w) /\
+      length (w_init w) = length (s_states sy) /\
+      N.of_nat (length (w_inputs w)) = k + 1 /\
+      Forall (fun vs => Forall2 has_value (s_inputs sy) vs /\ length vs = length (s_inputs sy)) (w_inputs w) /\
+      Forall (fun i => i < N.of_nat (length (s_bads sy))) (w_failed w).
+Proof. exact bmc_full_witness_shape. Qed.
+Print Assumptions C03_witness_shape.
+
+(** the same shape for EVERY witness the checker accepts (so also for the witnesses of the real runs) *)
+Theorem C03_accepted_witness_shape :
+  forall (sy : sys) (w : witness), witness_shape_ok sy w = true ->
+    w_init_names w = map (fun s => Some (sym_name_of s)) (state_syms sy) /\
+    w_input_names w = map (fun s => Some (sym_name_of s)) (s_inputs sy) /\
+    Forall2 has_value (state_syms sy) (w_init w) /\
+    length (w_init w) = length (s_states sy) /\
+    w_inputs w <> [] /\
+    Forall (fun vs => Forall2 has_value (s_inputs sy) vs /\ length vs = length (s_inputs sy)) (w_inputs w) /\
+    Forall (fun i => i < N.of_nat (length (s_bads sy))) (w_failed w).
+Proof. exact shape_ok_spec. Qed.
+Print Assumptions C03_accepted_witness_shape.
+
+(** Non-vacuity.  [enum_solver]: all valuations of the declared bit-vector constants, the first model is
+    the answer - it satisfies the hypothesis on the solver.  The system [exw_sys] (input en:1; state c:2
+    init 0 next c + zext(en); constraint en == 1; bad states c == 2, c > 2, c > 1) satisfies the
+    hypotheses on the system; with every one of the four parameter combinations the model returns the
+    two-step witness with failed = [0; 2]; with faulty solvers it takes the other exits (Unknown from the
+    constraint check, the assert_eq! panic, an error from unroll, an error from get-value, Unknown from a
+    bad-state query, the k_max assertion). *)
+From Patronus Require Import WitFullExamples.
+Example C03_full_solver_hypothesis_satisfiable :
+  forall EM : Type,
+    (forall sc asserts assumps m, sv_check (enum_solver EM) sc asserts assumps = SSat m -> is_model sc asserts assumps m) /\
+    (forall sc m s x, sv_value (enum_solver EM) sc m s = GVal x -> x = val_of (script_eval m sc) s).
+Proof. exact enum_solver_sound. Qed.
+
+Example C03_full_system_hypotheses_satisfiable :
+  sys_wf exw_sys = true /\ nodup_exprs (s_inputs exw_sys) = true /\
+  names_ok (enc_new exw_sys exw_nm) = true /\ init_deps_acyclic exw_sys.
+Proof. exact exw_hypotheses. Qed.
+
+Example C03_bmc_full_example :
+  (forall cc ind, bmc_model_full unit (enum_solver unit) exw_sys exw_nm cc ind 5 = FFail 2 exw_witness) /\
+  check_witness exw_sys exw_witness = true /\
+  bmc_model_full unit (enum_solver unit) exw_sys exw_nm true true 1 = FSuccess /\
+  bmc_model_full unit exw_unknown_on_plain_check exw_sys exw_nm true false 5 = FUnknown /\
+  bmc_model_full unit exw_unknown_on_plain_check exw_sys exw_nm false false 5 = FFail 2 exw_witness /\
+  bmc_model_full unit exw_unsat_on_plain_check exw_sys exw_nm true true 5 = FPanic /\
+  bmc_model_full unit (exw_error_at_step 1) exw_sys exw_nm false true 5 = FErr tt /\
+  bmc_model_full unit exw_value_error exw_sys exw_nm false false 5 = FErr tt /\
+  bmc_model_full unit exw_gives_up exw_sys exw_nm true true 5 = FUnknown /\
+  bmc_model_full unit (enum_solver unit) exw_sys exw_nm false false 2001 = FPanic.
+Proof. exact exw_bmc_runs. Qed.
+
+(** ** PDR's witness path (Model/PdrWit.v)
+
+    pdr.rs, when a cube that reaches the initial frame cannot be blocked, restarts the solver and calls
+    [bmc(ctx, smt_ctx, sys, false, false, MAX_FRAMES)]; a Fail of that run is PDR's Fail, anything else
+    is Unknown, errors are returned.  [pdr_wit] is the concrete PDR model of C10 (Model/PdrImpl.v, on
+    the states of the system: Model/PdrSys.v) with this fallback INSTANTIATED by [bmc_model_full] over the
+    restarted solver [sv] ([restart_fault]: the restart itself fails).
+
+    Whenever the composed model returns Fail(w) - whatever the PDR conversation was (no hypothesis on the
+    oracle [solve], the failing commands, the fuel) - [w] is accepted by [check_witness], i.e. it is an
+    execution from an initial valuation that satisfies every constraint at every step, of at most
+    MAX_FRAMES steps, whose last step has exactly the reported bad states.  Hypothesis on the restarted
+    solver as above.  (That a bad state IS reachable when the PDR part gives up blocking is
+    [C10_pdr_model_fail_real_sys], under the truthfulness of [solve].) *)
+From Patronus Require Import PdrSys PdrImpl PdrWit PdrWitProofs.
+Theorem C03_pdr_witness_is_execution :
+  forall (EM : Type) (sy : sys) (nm : expr -> string)
+         (solve : nat -> PdrImpl.query slit -> PdrImpl.answer slit (sstate sy) EM) (cmd_fail : nat -> option EM)
+         (n_init : nat) (gen_on : bool) (restart_fault : option EM) (sv : solver EM),
+    ((forall sc asserts assumps m, sv_check sv sc asserts assumps = SSat m -> is_model sc asserts assumps m) /\
+     (forall sc m s x, sv_value sv sc m s = GVal x -> x = val_of (script_eval m sc) s)) ->
+    sys_wf sy = true -> nodup_exprs (s_inputs sy) = true ->
+    names_ok (enc_new sy nm) = true -> init_deps_acyclic sy ->
+    forall (fuel bf : nat) (w : witness) (st' : pst slit (sstate sy) EM),
+      pdr_wit EM sy nm solve cmd_fail n_init gen_on restart_fault sv fuel bf = Ok _ _ _ _ (VFail witness w, st') ->
+      check_witness sy w = true /\ witness_ok sy w /\
+      exists frees : list env,
+        is_initial_r sy (witness_env0 sy w) /\
+        length (w_inputs w) = S (length frees) /\ (length frees <= MAX_FRAMES)%nat /\
+        forallb (constraints_hold sy) (run_from sy (witness_env0 sy w) frees) = true /\
+        some_bad sy (last (run_from sy (witness_env0 sy w) frees) env0) = true /\
+        bads_exactly sy (last (run_from sy (witness_env0 sy w) frees) env0) (w_failed w) = true.
+Proof. exact pdr_witness_is_execution. Qed.
+Print Assumptions C03_pdr_witness_is_execution.
+
+(** The BMC run starts at depth 0, so PDR's witness has the least possible length when the restarted
+    solver's "unsat" answers are right. *)
+Theorem C03_pdr_witness_shortest :
+  forall (EM : Type) (sy : sys) (nm : expr -> string)
+         (solve : nat -> PdrImpl.query slit -> PdrImpl.answer slit (sstate sy) EM) (cmd_fail : nat -> option EM)
+         (n_init : nat) (gen_on : bool) (restart_fault : option EM) (sv : solver EM),
+    ((forall sc asserts assumps m, sv_check sv sc asserts assumps = SSat m -> is_model sc asserts assumps m) /\
+     (forall sc m s x, sv_value sv sc m s = GVal x -> x = val_of (script_eval m sc) s)) ->
+    sys_wf sy = true -> nodup_exprs (s_inputs sy) = true ->
+    names_ok (enc_new sy nm) = true -> init_deps_acyclic sy ->
+    forall (fuel bf : nat) (w : witness) (st' : pst slit (sstate sy) EM),
+      (forall sc asserts assumps, sv_check sv sc asserts assumps = SUnsat -> ~ exists m, is_model sc asserts assumps m) ->
+      pdr_wit EM sy nm solve cmd_fail n_init gen_on restart_fault sv fuel bf = Ok _ _ _ _ (VFail witness w, st') ->
+      exists j, length (w_inputs w) = S j /\ (j <= MAX_FRAMES)%nat /\ reach_at sy j /\ forall m, (m < j)%nat -> ~ reach_at sy m.
+Proof. exact pdr_witness_shortest. Qed.
+Print Assumptions C03_pdr_witness_shortest.
+
+(** Non-vacuity: on [exw_sys], with the exhaustive-search oracle of C10 for the PDR queries and the
+    enumerating solver for the BMC run after the restart, the composed model returns Fail with the
+    two-step witness; a failing restart is an error, a restarted solver that gives up makes the verdict
+    Unknown, a failing get-value is an error. *)
+Example C03_pdr_witness_example :
+  (exists st, exw_pdr None (enum_solver unit) = Ok _ _ _ _ (VFail witness exw_witness, st)) /\
+  (match exw_pdr (Some tt) (enum_solver unit) with Err _ _ _ _ (ESolver _ tt) _ => true | _ => false end) = true /\
+  (match exw_pdr None exw_gives_up with Ok _ _ _ _ (VUnknown _, _) => true | _ => false end) = true /\
+  (match exw_pdr None exw_value_error with Err _ _ _ _ (ESolver _ tt) _ => true | _ => false end) = true.
+Proof. exact exw_pdr_runs. Qed.
